@@ -55,6 +55,10 @@ type c04Case struct {
 	// HeaderFirst (streaming kinds): the client calls Header() before its first receive (as code that wants the
 	// response headers up front does); the receives that follow are judged as always
 	HeaderFirst bool `json:",omitempty"`
+	// PastDeadline (cancel mode, instant before the call): the context that was cancelled by hand also had a
+	// deadline, and that instant has meanwhile passed (a clean-up call made with a cancelled job context): it is a
+	// cancelled context - Canceled, not DeadlineExceeded
+	PastDeadline bool `json:",omitempty"`
 }
 
 // manualCtx is a context whose end the harness decides: Done is closed by fire(), Err is
@@ -67,6 +71,7 @@ type manualCtx struct {
 	err      atomic.Value
 	deadline time.Time
 	isDL     bool
+	hasDL    bool // cancel mode: the context also has a deadline (Err() stays Canceled)
 	// cause mode: the context is, underneath, one made by context.WithCancelCause and is ended with a cause
 	// of the application's own (context.Cause(ctx) is that error, ctx.Err() still context.Canceled)
 	causeCancel context.CancelCauseFunc
@@ -91,7 +96,7 @@ func (m *manualCtx) Err() error {
 	return nil
 }
 func (m *manualCtx) Deadline() (time.Time, bool) {
-	if m.isDL {
+	if m.isDL || m.hasDL {
 		return m.deadline, true
 	}
 	return time.Time{}, false
@@ -337,6 +342,9 @@ func c04Run(c *c04Case, carrier string, rep int) *c04Obs {
 	mctx := newManualCtx(context.Background(), c.Mode == "deadline")
 	if c.Cause && c.Mode == "cancel" {
 		mctx = newManualCauseCtx(context.Background())
+	}
+	if c.PastDeadline && c.Mode == "cancel" && strings.HasPrefix(c.Point, "c:before-") {
+		mctx.hasDL, mctx.deadline = true, time.Now().Add(-time.Second)
 	}
 	ctl := &c04Ctl{c: c, ctx: mctx, holdServer: make(chan struct{})}
 	if strings.HasPrefix(c.Point, "io:") {
@@ -1007,6 +1015,14 @@ func genC04(t *rapid.T) c04Case {
 	c.HeaderFirst = c.Kind != kUnary && c.Attitude != "extra-recv" && rapid.IntRange(0, 3).Draw(t, "headerfirst") == 0
 	ps := c04Points(c.Carrier, c.Kind, c.NReq, c.NResp, c.Attitude, c.HeaderFirst)
 	c.Point = rapid.SampledFrom(ps).Draw(t, "point")
+	if c.Mode == "cancel" && rapid.IntRange(0, 15).Draw(t, "pastdeadline") == 0 {
+		// (drawn together with the placement it needs)
+		c.PastDeadline, c.Cause = true, false
+		c.Point = "c:before-newstream"
+		if c.Kind == kUnary {
+			c.Point = "c:before-invoke"
+		}
+	}
 	if c.Attitude == "extra-recv" {
 		c.Point = "c:while-handler-blocked-in-recv"
 	}
